@@ -156,6 +156,12 @@ func registerGhostBuiltins() {
 			return specInt(e.x.ghostGet(e.st, "reader$"+field, v.C[0]))
 		}
 	}
+	specBuiltins["iterates"] = func(e *SpecEnv, n ECall) Val {
+		// iterates(it, t): it is an iterator over tensor t
+		it := e.eval(n.Args[0])
+		t := e.eval(n.Args[1])
+		return boolVal(and(not(eq(it.pay(), "0")), eq(e.x.ghostGet(e.st, "it$tensor", it.pay()), tensorRef(t))))
+	}
 	specBuiltins["rpos"] = rd("pos")
 	specBuiltins["rbase"] = rd("base")
 	specBuiltins["roff"] = rd("off")
